@@ -25,6 +25,8 @@ type cfgT struct {
 	Headers []string // header names in configuration order; nil = default
 	MaxHops int      // as configured (0 = default 1)
 	Diag    bool     `json:",omitempty"` // router.WithDiagnostics installed (must not change any answer)
+	// DiagNil: WithDiagnostics(handler) followed by WithDiagnostics(nil) — the later option wins: diagnostics off.
+	DiagNil bool `json:",omitempty"`
 	// Decoy: each option is given twice inside WithTrustedProxies — first with decoy values (trust everything,
 	// another header, another hop limit), then with the real ones. The later option wins.
 	Decoy bool `json:",omitempty"`
@@ -169,6 +171,7 @@ func genCase(r *hx.Rand) (cfgT, reqT) {
 	}
 	c.Diag = r.Chance(1, 3)
 	c.Decoy = r.Chance(1, 4)
+	c.DiagNil = !c.Diag && r.Chance(1, 4)
 	var q reqT
 	peer := ""
 	switch r.Intn(10) {
@@ -465,12 +468,16 @@ func routerOptions(c cfgT, extra ...router.Option) []router.Option {
 	if c.Diag {
 		ro = append(ro, router.WithDiagnostics(router.DiagnosticHandlerFunc(func(router.DiagnosticEvent) {})))
 	}
+	if c.DiagNil {
+		ro = append(ro, router.WithDiagnostics(router.DiagnosticHandlerFunc(func(router.DiagnosticEvent) {})), router.WithDiagnostics(nil))
+	}
 	return append(ro, extra...)
 }
 
 func applyReq(req *http.Request, q reqT) {
 	req.RemoteAddr = q.Remote
-	req.Header.Set(decoyHdr, "6.6.6.66") // never configured for real: must have no influence
+	req.Header.Set(decoyHdr, "6.6.6.66")                                            // never configured for real: must have no influence
+	req.Header.Set("Forwarded", "for=6.6.6.67;proto=https, for=\"[2001:db8::67]\"") // RFC 7239: not a configured header either
 	for _, h := range hdrNames {
 		req.Header.Del(h)
 	}
@@ -499,8 +506,10 @@ func serveOn(r http.Handler, q reqT, site string, out *string, ok *bool) {
 		path = "/p/7/ip"
 	case "group":
 		path = "/g/ip"
-	case "mount":
+	case "mount", "mountsub":
 		path = "/m/ip"
+	case "mountown":
+		path = "/ip"
 	case "cstatic":
 		path = "/s5"
 	case "version":
@@ -541,12 +550,25 @@ func siteRouter(c cfgT, site string, out *string, ok *bool) http.Handler {
 		*out = ctx.ClientIP()
 	}
 	if site == "app" { // the configuration reaches the router through app.WithRouter
-		a, err := app.New(app.WithServiceName("c18"), app.WithServiceVersion("1.0.0"), app.WithRouter(routerOptions(c)...))
+		a, err := app.New(app.WithServiceName("c18"), app.WithServiceVersion("1.0.0"),
+			app.WithRouter(routerOptions(c)...),                // platform defaults: trusted proxies …
+			app.WithRouter(router.WithRouteCompilation(false))) // … service tuning in a second group
 		if err != nil {
 			panic(err)
 		}
 		a.GET("/app/ip", func(ctx *app.Context) { rec(ctx.Context) })
 		return a.Router()
+	}
+	if site == "mountsub" || site == "mountown" {
+		// the serving (parent) router has NO trusted-proxy configuration of its own; the mounted sub-router
+		// trusts everything. The parent's configuration (none: the peer) applies, also on its own routes.
+		parent := router.MustNew()
+		sub := newRouter(cfgT{Cidrs: []string{"0.0.0.0/0", "::/0"}, MaxHops: 5})
+		sub.GET("/ip", rec)
+		parent.Mount("/m", sub)
+		parent.GET("/ip", rec)
+		parent.NoRoute(rec)
+		return parent
 	}
 	r := newRouter(c, extra...)
 	switch site {
@@ -774,7 +796,13 @@ func main() {
 					q.Hdr["X-Forwarded-For"] = "6.6.6.6"
 				}
 			}
-			site := hx.Pick(r, []string{"", "mw", "nf", "noroute", "noroute", "param", "cparam", "cstatic", "group", "mount", "version", "app"})
+			site := hx.Pick(r, []string{"", "mw", "nf", "noroute", "noroute", "param", "cparam", "cstatic", "group", "mount", "version", "app", "app", "mountsub", "mountown"})
+			if site == "mountsub" || site == "mountown" {
+				c = cfgT{} // no configuration on the serving router
+				if q.Hdr["X-Forwarded-For"] == "" {
+					q.Hdr["X-Forwarded-For"] = "6.6.6.6"
+				}
+			}
 			res, ok := observeAfterOther(other, c, qa, q, site)
 			fmt.Fprintln(w, emitObs(fmt.Sprintf("c18-%d-o%d", a.Seed, i), caseT{C: c, Q: q, Other: &other, Site: site, Before: []reqT{qa}}, res, ok, st))
 		}
